@@ -20,6 +20,7 @@ fn __o_min_usize(a: usize, b: usize) -> (r: usize) ensures r == (if a <= b { a }
 
 pub mod sp {
 use super::*;
+use vstd::arithmetic::power2::*;
 pub type Asg = spec_fn(usize) -> bool;
 pub type BF = spec_fn(Asg) -> bool;
 
@@ -293,10 +294,38 @@ pub proof fn lemma_supp_indep(nodes: Seq<BddNode>, t: int, v: Var)
         law_indep_node(nodes[t].var.0, den(nodes, nodes[t].hi.0 as int), den(nodes, nodes[t].lo.0 as int), v.0);
     } else { law_indep_const(false, v.0); law_indep_const(true, v.0); }
 }
-pub open spec fn cc_ok(nodes: Seq<BddNode>, t: int, c: CountNode) -> bool {
+pub open spec fn exp32(d: int) -> nat { ((d as usize) as u32) as nat }
+pub open spec fn models_spec(nodes: Seq<BddNode>, t: int) -> (int, int)
+    decreases t
+{
+    if t == 0 { (1, 0) } else if t == 1 { (0, 1) }
+    else if guard(nodes, t) {
+        let lo = nodes[t].lo.0 as int; let hi = nodes[t].hi.0 as int;
+        let l = models_spec(nodes, lo); let h = models_spec(nodes, hi);
+        let dl = depth_spec(nodes, lo); let dh = depth_spec(nodes, hi);
+        let le = if dl > dh { 0nat } else { exp32(dh - dl) };
+        let he = if dl > dh { exp32(dl - dh) } else { 0nat };
+        (l.0 * pow2(le) + h.0 * pow2(he), l.1 * pow2(le) + h.1 * pow2(he))
+    } else { (0, 0) }
+}
+pub broadcast proof fn lemma_ext_models(o: Seq<BddNode>, n: Seq<BddNode>, t: int)
+    requires #[trigger] ext(o, n), 0 <= t < o.len(),
+    ensures #[trigger] models_spec(n, t) == models_spec(o, t)
+    decreases t
+{ if guard(o, t) { lemma_ext_models(o, n, o[t].lo.0 as int); lemma_ext_models(o, n, o[t].hi.0 as int); lemma_ext_depth(o, n, o[t].lo.0 as int); lemma_ext_depth(o, n, o[t].hi.0 as int); } }
+// the model-count component of a count-table entry.  Documented exception (C12): with ad-hoc path counting but without
+// ad-hoc model counting the component is not maintained by `node`, so nothing is claimed about it.
+#[cfg(all(feature = "adhoccounting", not(feature = "adhoccountmodels")))]
+pub open spec fn cc_models_ok(nodes: Seq<BddNode>, t: int, c: ModelCounts) -> bool { true }
+#[cfg(any(not(feature = "adhoccounting"), feature = "adhoccountmodels"))]
+pub open spec fn cc_models_ok(nodes: Seq<BddNode>, t: int, c: ModelCounts) -> bool { c.cmodels == models_spec(nodes, t).0 && c.models == models_spec(nodes, t).1 }
+pub open spec fn cc_paths_ok(nodes: Seq<BddNode>, t: int, c: CountNode) -> bool {
     &&& c.1.cmodels == paths_spec(nodes, t).0 && c.1.models == paths_spec(nodes, t).1
     &&& c.2 == depth_spec(nodes, t)
-    &&& c.0 == (if t == 0 { ModelCounts { cmodels: 1, models: 0 } } else if t == 1 { ModelCounts { cmodels: 0, models: 1 } } else { ModelCounts { cmodels: 0, models: 0 } })
+}
+pub open spec fn cc_ok(nodes: Seq<BddNode>, t: int, c: CountNode) -> bool { cc_paths_ok(nodes, t, c) && cc_models_ok(nodes, t, c.0) }
+pub open spec fn cc_full(nodes: Seq<BddNode>, t: int, c: CountNode) -> bool {
+    cc_paths_ok(nodes, t, c) && c.0.cmodels == models_spec(nodes, t).0 && c.0.models == models_spec(nodes, t).1
 }
 
 
@@ -358,22 +387,126 @@ fn __o_union_copied_collect(a: &HashSet<Var>, b: &HashSet<Var>) -> (r: HashSet<V
 fn __o_hashset_clone(a: &HashSet<Var>) -> (r: HashSet<Var>) ensures r@ == a@ { a.clone() }
 #[verifier::external_body]
 fn __o_max_usize(a: usize, b: usize) -> (r: usize) ensures r == (if a >= b { a } else { b }) { std::cmp::max(a, b) }
+#[verifier::external_body]
+fn __o_pow2(e: u32) -> (r: usize) requires e < 64 ensures r == vstd::arithmetic::power2::pow2(e as nat) { 2usize.pow(e) }
 
 
-impl Bdd {
-    pub open spec fn wf(&self) -> bool {
-        &&& nodes_wf(self.nodes@)
-        &&& forall|n: BddNode| #[trigger] self.cache@.contains_key(n) ==> 2 <= self.cache@[n].0 < self.nodes@.len() && self.nodes@[self.cache@[n].0 as int] == n
-        &&& forall|i: int| 2 <= i < self.nodes@.len() ==> self.cache@.contains_key(#[trigger] self.nodes@[i]) && self.cache@[self.nodes@[i]].0 == i
-        &&& forall|k: (Term, Term, Term)| #[trigger] self.ite_cache@.contains_key(k) ==> ite_entry_ok(self.nodes@, k, self.ite_cache@[k])
-        &&& forall|k: (Term, Var, bool)| #[trigger] self.restrict_cache@.contains_key(k) ==> restrict_entry_ok(self.nodes@, k, self.restrict_cache@[k])
-        &&& self.var_deps@.len() == self.nodes@.len()
-        &&& forall|i: int| 0 <= i < self.nodes@.len() ==> (#[trigger] self.var_deps@[i])@ == supp(self.nodes@, i)
-        &&& forall|t: Term| t.0 < self.nodes@.len() ==> #[trigger] self.count_cache@.contains_key(t) && cc_ok(self.nodes@, t.0 as int, self.count_cache@[t])
+// Each component of the representation invariant is a predicate over the *views of the fields it reads*, so that an
+// operation that leaves those fields alone preserves it by congruence (no quantifier reasoning, stable proofs).
+// ---- C06 / C11: node table reduced + ordered, unique table exact (=> no duplicates), memo tables hold only correct entries
+pub open spec fn core_ok(nodes: Seq<BddNode>, cache: Map<BddNode, Term>, ite: Map<(Term, Term, Term), Term>, rc: Map<(Term, Var, bool), Term>) -> bool {
+    &&& nodes_wf(nodes)
+    &&& forall|n: BddNode| #[trigger] cache.contains_key(n) ==> 2 <= cache[n].0 < nodes.len() && nodes[cache[n].0 as int] == n
+    &&& forall|i: int| 2 <= i < nodes.len() ==> cache.contains_key(#[trigger] nodes[i]) && cache[nodes[i]].0 == i
+    &&& forall|k: (Term, Term, Term)| #[trigger] ite.contains_key(k) ==> ite_entry_ok(nodes, k, ite[k])
+    &&& forall|k: (Term, Var, bool)| #[trigger] rc.contains_key(k) ==> restrict_entry_ok(nodes, k, rc[k])
+}
+// ---- C13 (and C07 through the early exit of restrict): the stored dependency sets are the supports
+pub open spec fn deps_ok(nodes: Seq<BddNode>, vd: Seq<HashSet<Var>>) -> bool {
+    &&& vd.len() == nodes.len()
+    &&& forall|i: int| 0 <= i < nodes.len() ==> (#[trigger] vd[i])@ == supp(nodes, i)
+}
+// ---- C13 / C11: the count table
+#[cfg(feature = "adhoccounting")]
+pub open spec fn counts_ok(nodes: Seq<BddNode>, cc: Map<Term, CountNode>) -> bool {
+    forall|t: Term| t.0 < nodes.len() ==> #[trigger] cc.contains_key(t) && cc_ok(nodes, t.0 as int, cc[t])
+}
+#[cfg(not(feature = "adhoccounting"))]
+pub open spec fn counts_ok(nodes: Seq<BddNode>, cc: Map<Term, CountNode>) -> bool {
+    forall|t: Term| #[trigger] cc.contains_key(t) ==> t.0 < nodes.len() && cc_ok(nodes, t.0 as int, cc[t])
+}
+// ---- frame lemmas for `Bdd::node` (the heavy quantifier reasoning lives here, once, outside the function bodies)
+pub proof fn lemma_core_push(o: Seq<BddNode>, n: Seq<BddNode>, co: Map<BddNode, Term>, cn: Map<BddNode, Term>, ite: Map<(Term, Term, Term), Term>, rc: Map<(Term, Var, bool), Term>, node: BddNode, nt: Term)
+    requires
+        core_ok(o, co, ite, rc), n == o.push(node), !co.contains_key(node), cn == co.insert(node, nt), nt.0 == o.len(),
+        node.var.0 < usize::MAX - 1, node.lo.0 < o.len(), node.hi.0 < o.len(), node.lo != node.hi,
+        node.var.0 < topvar(o, node.lo.0 as int), node.var.0 < topvar(o, node.hi.0 as int),
+    ensures core_ok(n, cn, ite, rc), ext(o, n),
+{
+    assert(ext(o, n));
+    lemma_ext_entries(o, n);
+    assert forall|i: int| 2 <= i < n.len() implies #[trigger] inner_ok(n, i) by { if i < o.len() { assert(inner_ok(o, i)); } }
+    assert forall|i: int| 2 <= i < n.len() implies cn.contains_key(#[trigger] n[i]) && cn[n[i]].0 == i by {
+        if i < o.len() { assert(co.contains_key(o[i])); assert(o[i] != node); }
     }
+    assert forall|m: BddNode| #[trigger] cn.contains_key(m) implies 2 <= cn[m].0 < n.len() && n[cn[m].0 as int] == m by {
+        if m != node { assert(co.contains_key(m)); }
+    }
+    assert forall|k: (Term, Term, Term)| #[trigger] ite.contains_key(k) implies ite_entry_ok(n, k, ite[k]) by { assert(ite_entry_ok(o, k, ite[k])); }
+    assert forall|k: (Term, Var, bool)| #[trigger] rc.contains_key(k) implies restrict_entry_ok(n, k, rc[k]) by { assert(restrict_entry_ok(o, k, rc[k])); }
+}
+pub proof fn lemma_deps_push(o: Seq<BddNode>, n: Seq<BddNode>, vo: Seq<HashSet<Var>>, vn: Seq<HashSet<Var>>, node: BddNode)
+    requires
+        deps_ok(o, vo), n == o.push(node), node.lo.0 < o.len(), node.hi.0 < o.len(), o.len() >= 2,
+        vn.len() == vo.len() + 1, forall|i: int| 0 <= i < vo.len() ==> vn[i] == vo[i],
+        vn[o.len() as int]@ =~= supp(o, node.lo.0 as int).union(supp(o, node.hi.0 as int)).insert(node.var),
+    ensures deps_ok(n, vn),
+{
+    assert(ext(o, n));
+    assert(guard(n, o.len() as int));
+    assert forall|i: int| 0 <= i < n.len() implies (#[trigger] vn[i])@ == supp(n, i) by {
+        if i < o.len() { lemma_ext_supp(o, n, i); assert(vo[i]@ == supp(o, i)); }
+        else {
+            lemma_ext_supp(o, n, node.lo.0 as int); lemma_ext_supp(o, n, node.hi.0 as int);
+            assert(supp(n, i) == supp(n, node.lo.0 as int).union(supp(n, node.hi.0 as int)).insert(node.var));
+            assert(vn[i]@ =~= supp(n, i));
+        }
+    }
+}
+// the entry computed for a new inner node from the entries of its children (paths and depth; `mok` = the model-count
+// component is right, which the caller establishes per configuration)
+pub proof fn lemma_cc_entry(o: Seq<BddNode>, n: Seq<BddNode>, node: BddNode, cl: CountNode, ch: CountNode, e: CountNode)
+    requires
+        n == o.push(node), node.lo.0 < o.len(), node.hi.0 < o.len(), o.len() >= 2,
+        cc_paths_ok(o, node.lo.0 as int, cl), cc_paths_ok(o, node.hi.0 as int, ch),
+        e.1.cmodels == cl.1.cmodels + ch.1.cmodels, e.1.models == cl.1.models + ch.1.models,
+        e.2 == (if cl.2 >= ch.2 { cl.2 } else { ch.2 }) + 1,
+    ensures cc_paths_ok(n, o.len() as int, e),
+{
+    assert(ext(o, n));
+    assert(guard(n, o.len() as int));
+    lemma_ext_paths(o, n, node.lo.0 as int); lemma_ext_paths(o, n, node.hi.0 as int);
+    lemma_ext_depth(o, n, node.lo.0 as int); lemma_ext_depth(o, n, node.hi.0 as int);
+}
+#[cfg(feature = "adhoccounting")]
+pub proof fn lemma_counts_push(o: Seq<BddNode>, n: Seq<BddNode>, co: Map<Term, CountNode>, cn: Map<Term, CountNode>, node: BddNode, e: CountNode, nt: Term)
+    requires counts_ok(o, co), n == o.push(node), cn == co.insert(nt, e), cc_ok(n, o.len() as int, e), nt.0 == o.len(),
+    ensures counts_ok(n, cn),
+{
+    assert(ext(o, n));
+    assert forall|t: Term| t.0 < n.len() implies #[trigger] cn.contains_key(t) && cc_ok(n, t.0 as int, cn[t]) by {
+        if t.0 < o.len() {
+            assert(co.contains_key(t)); assert(t != nt);
+            lemma_ext_paths(o, n, t.0 as int); lemma_ext_depth(o, n, t.0 as int); lemma_ext_models(o, n, t.0 as int);
+        } else { assert(t == nt); }
+    }
+}
+// without ad-hoc counting `node` leaves the count table alone: entries stay right under extension
+#[cfg(not(feature = "adhoccounting"))]
+pub proof fn lemma_counts_ext(o: Seq<BddNode>, n: Seq<BddNode>, cc: Map<Term, CountNode>)
+    requires counts_ok(o, cc), ext(o, n),
+    ensures counts_ok(n, cc),
+{
+    assert forall|t: Term| #[trigger] cc.contains_key(t) && t.0 < o.len() implies cc_ok(n, t.0 as int, cc[t]) == cc_ok(o, t.0 as int, cc[t]) by {
+        lemma_ext_paths(o, n, t.0 as int); lemma_ext_depth(o, n, t.0 as int); lemma_ext_models(o, n, t.0 as int);
+    }
+}
+impl Bdd {
+    pub open spec fn wf_core(&self) -> bool { core_ok(self.nodes@, self.cache@, self.ite_cache@, self.restrict_cache@) }
+    #[cfg(feature = "variablelist")]
+    pub open spec fn wf_deps(&self) -> bool { deps_ok(self.nodes@, self.var_deps@) }
+    #[cfg(not(feature = "variablelist"))]
+    pub open spec fn wf_deps(&self) -> bool { true }
+    pub open spec fn wf_counts(&self) -> bool { counts_ok(self.nodes@, self.count_cache@) }
+    // ---- C19: producer side of the streaming mirror
+    #[cfg(feature = "frontend")]
+    pub open spec fn wf_chan(&self) -> bool { self.producer_inv() }
+    #[cfg(not(feature = "frontend"))]
+    pub open spec fn wf_chan(&self) -> bool { true }
+
+    pub open spec fn wf(&self) -> bool { self.wf_core() && self.wf_deps() && self.wf_counts() && self.wf_chan() }
 
     pub open spec fn impact_cnt(&self, var: Var, tl: Seq<Term>, k: int) -> int
         decreases k
     { if k <= 0 { 0 } else { self.impact_cnt(var, tl, k - 1) + if supp(self.nodes@, tl[k - 1].0 as int).contains(var) { 1int } else { 0int } } }
-
 }
